@@ -708,6 +708,37 @@ func (r *c13Run) doResponse(name string, h int64, kind string) bool {
 	return true
 }
 
+// The requester's retry timer (requestRetrySeconds, a 30 s constant) does `bpr.reset(); continue OUTER_LOOP`.
+// A redo for the requester's current peer takes the requester goroutine through exactly that code
+// (`case peerID := <-bpr.redoCh: if peerID == bpr.peerID { bpr.reset(); continue OUTER_LOOP }`), at once.
+func (r *c13Run) doRetry(h int64) bool {
+	r.tr.Lock()
+	defer r.tr.Unlock()
+	if r.isHanded() {
+		return false
+	}
+	pool := r.bcR.pool
+	pool.mtx.Lock()
+	q := pool.requesters[h]
+	var id p2p.ID
+	if q != nil {
+		id = q.getPeerID()
+	}
+	pool.mtx.Unlock()
+	if q == nil || id == "" || len(q.redoCh) > 0 {
+		return false
+	}
+	had := q.getBlock() != nil
+	e := r.log(map[string]interface{}{"ev": "Retry", "h": int(h), "p": r.nameOf(id)})
+	q.redo(id)
+	// until the requester goroutine has taken the redo and gone through reset()
+	for i := 0; i < 20000 && (len(q.redoCh) > 0 || (had && q.getBlock() != nil)); i++ {
+		time.Sleep(200 * time.Microsecond)
+	}
+	e["pool"] = r.pool()
+	return true
+}
+
 func (r *c13Run) doTimeout(name string) bool {
 	r.tr.Lock()
 	defer r.tr.Unlock()
@@ -793,6 +824,19 @@ func (r *c13Run) exec(s c13Step) bool {
 		return r.doResponse(s.P, s.H, s.Kind)
 	case "Timeout":
 		return r.doTimeout(s.P)
+	case "Retry":
+		return r.doRetry(s.H)
+	case "WaitAsked":
+		// wait (condition, bounded) until peer s.P has been sent the request for height s.H
+		for i := 0; i < 20000 && !r.isHanded(); i++ {
+			for _, x := range r.pendingOf(s.P) {
+				if x == s.H {
+					return true
+				}
+			}
+			time.Sleep(500 * time.Microsecond)
+		}
+		return false
 	case "WaitReq":
 		// wait (for the condition, bounded) until the peer has been sent s.H block requests: every
 		// requester that picked it has stored the peer id by then
@@ -971,6 +1015,23 @@ func (r *c13Run) randomStep() bool {
 	}
 	if len(cs) == 0 {
 		return false
+	}
+	if r.rng.Intn(12) == 0 { // a requester's retry timer fires
+		pool := r.bcR.pool
+		pool.mtx.Lock()
+		var hs []int64
+		for h, q := range pool.requesters {
+			if q.getPeerID() != "" {
+				hs = append(hs, h)
+			}
+		}
+		pool.mtx.Unlock()
+		if len(hs) > 0 {
+			sort.Slice(hs, func(i, j int) bool { return hs[i] < hs[j] })
+			if r.doRetry(hs[r.rng.Intn(len(hs))]) {
+				return true
+			}
+		}
 	}
 	return cs[r.rng.Intn(len(cs))]()
 }
